@@ -132,7 +132,7 @@ var c02 struct {
 func c02Engine() *liquid.Engine {
 	e := liquid.NewEngine()
 	if _, err := e.ParseTemplateAndCache([]byte("inc:{% for kv in m %}{{ kv[0] }}{% endfor %}{{ m | first }}"), c02IncName, 1); err != nil {
-		panic("harness: " + err.Error())
+		panic(explore.BaselineFailure{Msg: "harness: " + err.Error()})
 	}
 	return e
 }
@@ -386,7 +386,7 @@ func c02Families(tier string) []explore.Family {
 		src := c02MapTemplates[c.t]
 		tpl, err := c02.eng.ParseString(src)
 		if err != nil {
-			panic("harness: " + err.Error())
+			panic(explore.BaselineFailure{Msg: "harness: " + err.Error()})
 		}
 		if !mapSeamAvailable {
 			r.Notes = append(r.Notes, "runtime map-iteration seam unavailable: map-order choices not explored")
